@@ -18,13 +18,20 @@
    cursor after a truncation point, becomes Stale.  Every method of a Stale cursor panics
    "invalid cursor" and changes nothing (Add of no values does nothing at all).
 
+   Cursor is a value type: [OCopy k] (a struct copy of cursor k) hands out a new cursor at the
+   same position (or equally Stale) that from then on moves independently; [OAssign k j]
+   (struct assignment) repositions cursor k where cursor j is.  [NoPred] is a Cursor that was
+   never positioned: a nil pointer to a Cursor or the zero Cursor value (the documentation: a nil
+   Cursor pointer is not valid, and operations on it will panic): every method panics with a nil
+   dereference and changes nothing (Add of no values does nothing at all).
+
    The vocabulary (op, out, pkind) is shared with the model; nothing else is. *)
 From Coq Require Import ZArith List Bool Arith.
 Import ListNotations.
 From Mds Require Import Mlink.MlinkModel.
 Local Open Scope Z_scope.
 
-Inductive cpos := At (i : nat) | Stale.
+Inductive cpos := At (i : nat) | Stale | NoPred.
 
 Section Spec.
 Variable T : Type.
@@ -40,14 +47,14 @@ Definition set_pos (cs : list cpos) (k : nat) (p : cpos) : list cpos := firstn k
 
 (* what an edit at index i does to a cursor into the same list *)
 Definition after_push (i : nat) (p : cpos) : cpos :=
-  match p with At j => if (j <=? i)%nat then At j else At (S j) | Stale => Stale end.
+  match p with At j => if (j <=? i)%nat then At j else At (S j) | q => q end.
 Definition after_remove (i : nat) (p : cpos) : cpos :=
   match p with
   | At j => if (j <=? i)%nat then At j else if (j =? S i)%nat then Stale else At (pred j)
-  | Stale => Stale
+  | q => q
   end.
 Definition after_truncate (i : nat) (p : cpos) : cpos :=
-  match p with At j => if (j <=? i)%nat then At j else Stale | Stale => Stale end.
+  match p with At j => if (j <=? i)%nat then At j else Stale | q => q end.
 
 (* index of the first element satisfying f, or the length *)
 Fixpoint find_index (f : T -> bool) (l : list T) : nat :=
@@ -59,13 +66,14 @@ Fixpoint visited (f : T -> bool) (l : list T) : list T :=
 
 Definition apeek (l : list T) (z : Z) : out T :=
   if z <? 0 then RPanic IndexRange
-  else if (Z.to_nat z <? length l)%nat then RValBool (nth (Z.to_nat z) l zero) true
+  else if z <? Z.of_nat (length l) then RValBool (nth (Z.to_nat z) l zero) true
   else RValBool zero false.
 
 Definition with_cursor (a : astate) (k : nat) (f : nat -> astate * out T) : astate * out T :=
   match nth_error (snd a) k with
   | None => (a, RNoCursor)
   | Some Stale => (a, RPanic InvalidCursor)
+  | Some NoPred => (a, RPanic NilDeref)
   | Some (At i) => f i
   end.
 
@@ -94,10 +102,17 @@ Definition astep (a : astate) (o : op T) : astate * out T :=
   let cs := snd a in
   let n := length l in
   match o with
-  | OAt z => if z <? 0 then (a, RPanic IndexRange) else ((l, cs ++ [At (Nat.min (Z.to_nat z) n)]), RUnit)
+  | OAt z => if z <? 0 then (a, RPanic IndexRange)
+             else ((l, cs ++ [At (if z <? Z.of_nat n then Z.to_nat z else n)]), RUnit)   (* min z n, compared in Z *)
   | OLast => ((l, cs ++ [At (pred n)]), RUnit)
   | OEnd => ((l, cs ++ [At n]), RUnit)
   | OFind f => ((l, cs ++ [At (find_index f l)]), RUnit)
+  | OCopy k => match nth_error cs k with None => (a, RNoCursor) | Some p => ((l, cs ++ [p]), RUnit) end
+  | OAssign k j => match nth_error cs k, nth_error cs j with
+                   | Some _, Some p => ((l, set_pos cs k p), RUnit)
+                   | _, _ => (a, RNoCursor)
+                   end
+  | ONilCursor => ((l, cs ++ [NoPred]), RUnit)
   | OGet k => with_cursor a k (fun i => (a, RVal (nth i l zero)))
   | OSet k v => with_cursor a k (fun i =>
       if (i <? n)%nat then ((repl l i v, cs), RUnit) else ((l ++ [v], cs), RUnit))
